@@ -322,7 +322,7 @@ func (a *attacker) randomDyn() []byte {
 
 var c12moves = []string{"dup-registerEvent", "conflicting-unregister", "foreign-ids", "wrong-object-ids", "garbage-property", "mutated-directory-call",
 	"unknown-targets", "all-message-types", "big-payload", "flood-drain-late", "flood-abrupt-close", "cut-mid-message", "reauthenticate-racing-calls",
-	"documented-removal", "mutated-arguments", "subscribe-then-vanish", "hostile-signatures", "garbage-bytes", "stats-and-trace", "terminate-under-flood", "post-flood-subscriptions", "answers-from-a-client", "pipelined-object-references"}
+	"documented-removal", "mutated-arguments", "subscribe-then-vanish", "hostile-signatures", "garbage-bytes", "stats-and-trace", "terminate-under-flood", "post-flood-subscriptions", "answers-from-a-client", "pipelined-object-references", "truncated-arguments"}
 
 func (a *attacker) move(name string) {
 	r := a.rng
@@ -693,6 +693,62 @@ func (a *attacker) move(name string) {
 			a.send(qnet.Call, s, o, 85, no)
 		}
 		a.logf("statistics / tracing enabled on %d/%d, then known, unknown and failing calls", s, o)
+		a.drain(50 * time.Millisecond)
+	case "truncated-arguments":
+		// well-formed argument lists of the generic object actions, the Probe methods and the directory
+		// methods, cut short at every length (the header announces the shortened payload): calls and posts
+		s, o := a.target()
+		a.hid++
+		dynS := func(v string) []byte { return rc.Encode(rc.T(rc.Dyn), rc.DynV{T: rc.T(rc.String), V: v}) }
+		type tmpl struct {
+			s, o, act uint32
+			full      []byte
+		}
+		ts := []tmpl{
+			{s, o, 0, eventArgs(o, []uint32{tick, 86, 0}[r.Intn(3)], a.hid)},
+			{s, o, 1, eventArgs(o, tick, a.hid)},
+			{s, o, 2, u32(o)},
+			{s, o, 3, u32(o)}, // strict prefixes only: a complete terminate is a documented removal
+			{s, o, 5, dynS("level")},
+			{s, o, 6, append(dynS("level"), rc.Encode(rc.T(rc.Dyn), rc.DynV{T: rc.T(rc.Int32), V: int32(r.Intn(100))})...)},
+			{s, o, 8, append(eventArgs(o, tick, a.hid), rc.Encode(rc.T(rc.String), "(L)")...)},
+			{s, o, 81, []byte{1}},
+			{s, o, 85, []byte{1}},
+			{s, o, work, workArgs(uint64(r.Int63()), "truncated")},
+		}
+		for _, nm := range []string{"echoItem", "sum", "blob", "pairs"} {
+			pt := probeParams[nm]
+			b := 12
+			inner := rc.GenOpts{Depth: 2, Width: 2, ComparableKeys: true, MaxAnonNest: 2}
+			v := fixDynB(r, pt, rc.GenValue(r, pt, rc.ValOpts{MaxLen: 2, MaxStr: 8, Budget: &b, DynDepth: 1, DynOpts: &inner}))
+			ts = append(ts, tmpl{s, o, info.Actions[nm], rc.Encode(pt, v)})
+		}
+		{
+			b := 12
+			v := rc.GenValue(r, serviceInfoT, rc.ValOpts{MaxLen: 2, MaxStr: 8, Budget: &b})
+			enc := rc.Encode(serviceInfoT, v)
+			ts = append(ts, tmpl{1, 1, a.ch.dir["registerService"], enc}, tmpl{1, 1, a.ch.dir["updateServiceInfo"], enc},
+				tmpl{1, 1, a.ch.dir["service"], rc.Encode(rc.T(rc.String), "R0")}, tmpl{1, 1, a.ch.dir["serviceReady"], u32(7)})
+		}
+		r.Shuffle(len(ts), func(x, y int) { ts[x], ts[y] = ts[y], ts[x] })
+		sent := 0
+		for _, t := range ts[:4+r.Intn(5)] {
+			for cut := 0; cut < len(t.full); cut++ {
+				if len(t.full) > 40 && r.Intn(len(t.full)) >= 24 {
+					continue
+				}
+				typ := uint8(qnet.Call)
+				if r.Intn(5) == 0 {
+					typ = qnet.Post
+				}
+				a.send(typ, t.s, t.o, t.act, t.full[:cut])
+				sent++
+				if sent%40 == 0 {
+					a.drain(10 * time.Millisecond)
+				}
+			}
+		}
+		a.logf("%d calls / posts whose argument list is a strict prefix of a well-formed one (generic actions, Probe methods, directory) on %d/%d", sent, s, o)
 		a.drain(50 * time.Millisecond)
 	case "garbage-bytes":
 		if !a.connect() {
